@@ -50,8 +50,12 @@ func genC12G(t *rapid.T) c12gCase {
 	}
 	step := rapid.Custom(func(t *rapid.T) c12gStep {
 		switch k := rapid.IntRange(0, 11).Draw(t, "k"); {
-		case k < 4:
+		case k < 3:
 			return c12gStep{K: "arrive"}
+		case k < 4:
+			// a caller whose context carries a deadline of its own (the request's time budget), usually shorter than the
+			// backlog time-out: without eviction of done contexts it keeps its place until served or timed out
+			return c12gStep{K: "arrive", N: rapid.SampledFrom([]int{1, 2, 3, 10, 40}).Draw(t, "ctxDeadlineMs")}
 		case k < 6:
 			return c12gStep{K: "release", Idx: rapid.IntRange(0, 9).Draw(t, "idx"), Out: rapid.IntRange(0, 2).Draw(t, "out")}
 		case k < 8:
@@ -121,7 +125,11 @@ func runC12G(t *testing.T, c c12gCase) kit.Outcome {
 			refusedBefore := doneBefore()
 			switch sp.K {
 			case "arrive":
-				w.start(w.newCaller("a", 0, 0))
+				if sp.N > 0 {
+					w.start(w.newCallerDeadline("a", time.Now().Add(time.Duration(sp.N)*time.Millisecond)))
+				} else {
+					w.start(w.newCaller("a", 0, 0))
+				}
 			case "release":
 				held := w.heldByHarness()
 				if len(held) == 0 {
@@ -180,7 +188,7 @@ func TestC12_moving_limit(t *testing.T) {
 	kit.RequireMode(t, "std")
 	kit.Check(t, kit.Prop[c12gCase]{
 		ID: "C12", Quick: 1500, Thor: 150_000,
-		Rule: "queue limiters / queue-ordered pools over a settable limit on a virtual clock: arrivals, releases, cancellations, sleeps past the backlog timeout, and limit moves (estimate and strategy together, as a window update does) while callers are queued; at every quiescent point callers inside Acquire == backlog length == queue_size gauge <= bound; non-trivial = the limit grew or was cut under waiting callers and a caller then gave up",
+		Rule: "queue limiters / queue-ordered pools over a settable limit on a virtual clock: arrivals (some with a context deadline of their own), releases, cancellations, sleeps past the backlog timeout, and limit moves (estimate and strategy together, as a window update does) while callers are queued; at every quiescent point callers inside Acquire == backlog length == queue_size gauge <= bound; non-trivial = the limit grew or was cut under waiting callers and a caller then gave up",
 		Gen:  genC12G, Run: runC12G, Timeout: 30 * time.Second,
 	})
 }
